@@ -38,6 +38,8 @@ def core(p):
                 c[("sign-test",)] += v
             elif op in ("Ne", "Eq") and l.startswith("field:") and r.startswith("field:"):
                 c[("exclude-by-tag",)] += v
+            elif op in ("Ne", "Eq") and ((l.startswith("field:") and r == "index") or (r.startswith("field:") and l == "index")):
+                c[("exclude-by-tag",)] += v          # the excluded message's tag copied into a local first
             elif op in ("Ne", "Eq") and l == "index" and r == "index":
                 c[("exclude-by-index",)] += v
             elif op in ("Eq", "Ne") and r in ("lit:0",) and l.startswith("var:u32"):
@@ -201,32 +203,110 @@ def run(ck, F, tier):
 
         # ---- K2 -----------------------------------------------------------------------------------------
         for tag, body, fld in (("flooding", b, "source"), ("layered", bl, "dest")):
+            tr_ = t if tag == "flooding" else tl
+            from ..symx import canon_cond, evaluate, NotEvaluable
+            from ..idioms import as_closure
             if fam in ("tanhf", "minstarapproxf", "minstarapproxi8"):
-                preds = []
+                # leave-one-out: the inner reduction keeps exactly the messages whose tag differs from the excluded message's tag.
+                # Every filter / filter_map predicate of the body is evaluated on a symbolic element m and read as a canonical condition.
+                conds = []
                 for n in walk(body.value):
-                    if n.get("k") == "mcall" and n["m"] in ("filter", "filter_map") and n["args"] and n["args"][0].get("k") == "closure":
-                        for c in walk(n["args"][0]["body"]):
-                            if c.get("k") == "bin" and c["op"] in ("Ne", "Eq"):
-                                l, r = strip(c["l"]), strip(c["r"])
-                                if l.get("k") == "field" and r.get("k") == "field":
-                                    preds.append((c["op"], l["f"], r["f"], access_path(l)[0].split("#")[0], access_path(r)[0].split("#")[0]))
-                ok2 = len(preds) == 1 and preds[0][0] == "Ne" and preds[0][1] == preds[0][2] == fld and preds[0][3] != preds[0][4]
-                ck.inst("K2", "%s:%s" % (ty, tag), ok2, body.span, "inner reduction keeps msg with msg.%s != exclude_msg.%s: %s" % (fld, fld, preds))
+                    if n.get("k") == "mcall" and n["m"] in ("filter", "filter_map") and n["args"] and strip(n["args"][0]).get("k") == "closure":
+                        clo = strip(n["args"][0])
+                        try:
+                            pv = tr_.apply(("closure", clo, dict(getattr(tr_, "closure_envs", {}).get(clo.get("def"), {}))), [var("m")])
+                        except Unsupported:
+                            conds.append(None)
+                            continue
+                        if isinstance(pv, tuple) and len(pv) == 3 and pv[0] == "opt":
+                            ca_ = single_atom(pv[1])
+                            pv = atom_args(ca_)[0] if ca_ and atom_fn(ca_) == "bool_to_option" else None
+                        elif isinstance(pv, Poly) and single_atom(pv) is not None and atom_fn(single_atom(pv)) == "ite":
+                            c_, tv_, fv_ = atom_args(single_atom(pv))
+                            pv = c_ if fv_ == ("variant", "None") else (app("not", c_) if tv_ == ("variant", "None") else None)
+                        conds.append(pv)
+                ok2 = False
+                shown = None
+                if len(conds) == 1 and isinstance(conds[0], Poly):
+                    c_, pol_ = canon_cond(conds[0], True)
+                    shown = (repr(c_)[:120], pol_)
+                    ca_ = single_atom(c_)
+                    if ca_ and atom_fn(ca_) == "eq" and pol_ is False:
+                        sides = atom_args(ca_)
+                        has_m = [contains_atom(vkey(x), lambda a_: a_ == ("v", "m") or (a_[0] == "v" and a_[1].startswith("m."))) for x in sides]
+
+                        def is_tag(x):
+                            xa = single_atom(x) if isinstance(x, Poly) else None
+                            return xa is not None and ((xa[0] == "f" and atom_fn(xa) == "." + fld) or (xa[0] == "v" and xa[1].endswith("." + fld)))
+                        ok2 = sorted(has_m) == [False, True] and all(is_tag(x) for x in sides)
+                ck.inst("K2", "%s:%s" % (ty, tag), ok2, body.span, "inner reduction keeps msg exactly when msg.%s != excluded.%s: %s" % (fld, fld, shown))
             elif fam == "phif":
-                subs = [n for n in walk(body.value) if n.get("k") == "call" and (callee(n) or "").endswith("::phi") and strip(n["args"][0]).get("k") == "bin"
-                        and strip(n["args"][0])["op"] == "Sub"]
-                acc = {plain_local(a["l"]) for a in walk(body.value) if a.get("k") == "assignop" and a["op"].startswith("Add")}
-                zipped = {x["name"] for fl in walk(body.value) if fl.get("k") == "for" and any(y.get("k") == "field" and y["f"] == "phis" for y in walk(fl["iter"]))
-                          for x in walk(fl["pat"]) if x.get("k") == "bind"}
-                own = len(subs) == 1 and (access_path(strip(subs[0]["args"][0])["l"]) or ("",))[0] in acc and (access_path(strip(subs[0]["args"][0])["r"]) or ("",))[0] in zipped
-                sgn = [n for n in walk(body.value) if n.get("k") == "if" and strip(n["c"]).get("k") == "bin" and strip(n["c"])["op"] == "Lt" and lit_value(strip(n["c"])["r"]) == 0.0
-                       and strip(n["t"]).get("k") in ("bin", "block") and "BitXor" in repr([x.get("op") for x in walk(n["t"])]) and "e" in n]
-                ck.inst("K2", "%s:%s" % (ty, tag), own and len(sgn) == 1, body.span, "per destination: magnitude phi(sum - own phi) (%s); own sign removed by sign ^ 1 when x < 0 (%d site)" % (own, len(sgn)))
+                # per destination: magnitude phi(SUM - own phi) with SUM = sum of phi(|x|) over all messages; sign negative iff the parity of
+                # negative inputs XOR (own x < 0) - read from the traced values, the sign logic by its truth table
+                if tag == "flooding":
+                    outs = [e.args[1][2].get("value") for e in tr_.events if e.callee == "<apply>" and isinstance(e.args[1], tuple) and e.args[1][0] == "struct"]
+                else:
+                    outs = [e.args[1] for e in tr_.events if e.callee == "<assign>" and repr(e.args[0]).startswith(".value(")]
+                own = sign_ok = acc_ok = False
+                if len(outs) == 1 and isinstance(outs[0], Poly) and single_atom(outs[0]) is not None and atom_fn(single_atom(outs[0])) == "ite":
+                    c_, a1, a2 = atom_args(single_atom(outs[0]))
+                    from ..symx import unkey
+                    a1, a2 = unkey(a1), unkey(a2)
+                    neg_first = isinstance(a1, Poly) and isinstance(a2, Poly) and a1 == -a2 and single_atom(a2) is not None and atom_fn(single_atom(a2)).endswith("::phi")
+                    pos_first = isinstance(a1, Poly) and isinstance(a2, Poly) and a2 == -a1 and single_atom(a1) is not None and atom_fn(single_atom(a1)).endswith("::phi")
+                    Y = a2 if neg_first else (a1 if pos_first else None)
+                    if Y is not None:
+                        arg = atom_args(single_atom(Y))[-1]
+                        arg = unkey(arg)
+                        sums = [a_ for a_ in arg.atoms() if a_[0] == "v" and a_[1].endswith("@after")] if isinstance(arg, Poly) else []
+                        phis_ = [a_ for a_ in arg.atoms() if a_[0] == "f" and atom_fn(a_) == "elem" and "phis" in repr(a_)] if isinstance(arg, Poly) else []
+                        own = len(sums) == 1 and len(phis_) == 1 and arg == Poly.atom(sums[0]) - Poly.atom(phis_[0])
+                        # accumulation of SUM: s += phi(|x|) for every message, unconditionally
+                        sname = sums[0][1][:-6] if sums else None
+                        accs = [st for st in tr_.assign_sites if st[0].split("#")[0].split("@")[0] == (sname or "").split("@")[0] and st[2]]
+                        acc_ok = len(accs) == 1 and not accs[0][3] and "::phi(abs(" in repr(accs[0][1]) and (sname.split("@")[0] + "@loop") in repr(accs[0][1])
+                        # sign: negative exactly when (number of negative inputs is odd) XOR (own input negative)
+                        lts = sorted({a_ for a_ in unkey(c_).atoms_deep() if a_[0] == "f" and atom_fn(a_) == "lt"}, key=repr) if hasattr(unkey(c_), "atoms_deep") else []
+                        pars = sorted({a_ for a_ in unkey(c_).atoms_deep() if a_[0] == "v" and a_[1].endswith("@after")}, key=repr) if hasattr(unkey(c_), "atoms_deep") else []
+                        if len(lts) == 1 and len(pars) == 1:
+                            try:
+                                table = {(pv_, nv_): bool(evaluate(unkey(c_), {lts[0]: nv_, pars[0]: pv_})) for pv_ in (0, 1) for nv_ in (0, 1)}
+                                want_neg = {(pv_, nv_): bool(pv_ ^ nv_) for pv_ in (0, 1) for nv_ in (0, 1)}
+                                sign_ok = table == (want_neg if neg_first else {k_: not v_ for k_, v_ in want_neg.items()})
+                            except NotEvaluable:
+                                sign_ok = False
+                            # the parity variable flips exactly on negative inputs
+                            pname = pars[0][1][:-6]
+                            pacc = [st for st in tr_.assign_sites if st[0].split("#")[0] == pname.split("#")[0] and st[2]]
+                            if len(pacc) == 1:
+                                val_, gs_ = pacc[0][1], pacc[0][3]
+                                loopv = single_atom(var(pname.split("@")[0] + "@loop"))
+                                try:
+                                    upd = {}
+                                    for old in (0, 1):
+                                        for neg in (0, 1):
+                                            env_ = {loopv: old}
+                                            for a_ in (val_.atoms_deep() if isinstance(val_, Poly) else []):
+                                                if a_[0] == "f" and atom_fn(a_) == "lt":
+                                                    env_[a_] = neg
+                                            taken = True
+                                            for g_, p_ in gs_:
+                                                genv = dict(env_)
+                                                for a_ in (g_.atoms_deep() if isinstance(g_, Poly) else []):
+                                                    if a_[0] == "f" and atom_fn(a_) == "lt":
+                                                        genv[a_] = neg
+                                                taken = taken and (bool(evaluate(g_, genv)) == p_)
+                                            upd[(old, neg)] = int(evaluate(val_, env_)) if taken else old
+                                    sign_ok = sign_ok and upd == {(o_, n_): o_ ^ n_ for o_ in (0, 1) for n_ in (0, 1)}
+                                except NotEvaluable:
+                                    sign_ok = False
+                            else:
+                                sign_ok = False
+                ck.inst("K2", "%s:%s" % (ty, tag), own and acc_ok and sign_ok, body.span,
+                        "per destination: magnitude phi(SUM - own phi) (%s), SUM accumulates phi(|x|) of every message (%s); sign = parity of negative inputs XOR own sign, by truth table (%s)" % (own, acc_ok, sign_ok))
             else:
                 # the running box-plus `delta` is updated exactly for the elements other than the least reliable one: every assignment
                 # to a loop-carried local inside the pass over the messages that combines magnitudes (min) is guarded by index != argmin
-                from ..symx import canon_cond
-                tr_ = t if tag == "flooding" else tl
                 folds = []
                 for nm, val, loops, guards in tr_.assign_sites:
                     if loops and "min(" in repr(val) and "@loop" in repr(val):
@@ -325,35 +405,69 @@ def run(ck, F, tier):
         nonneg = len(es.asserts) == 1 and any(x.get("k") == "bin" and x["op"] == "Ge" and lit_value(x["r"]) == 0 for x in walk(es.asserts[0]))
         ck.inst("K4", ty + ":lookup", lv == want_l and nonneg, lb.span, "lookup(table, x) = the table entry at x, or 0 past its end (get + unwrap_or / match), with assert!(x >= 0): %s / %s" % (lv == want_l, nonneg))
         nb = F.body(ARI + ty + "::new")
-        cl = [c for c in walk(nb.value) if c.get("k") == "closure"]
         okt = False
-        if cl:
-            er = SymEval(F, mode="real")
-            r = er.apply(("closure", cl[0], {}), [var("t")])
-            C = var(ARI + ty + "::QUANTIZER_C")
-            from ..symx import Rat
-            # x = round(C * ln_1p(exp(-(t / C)))) as i8 ; if x > 0 { Some(x) } else { None }
-            inner = None
-            ra = single_atom(r) if isinstance(r, Poly) else None
-            if ra and atom_fn(ra) == "ite":
-                c, tv, fv = atom_args(ra)
-                ca = single_atom(c)
-                if ca and atom_fn(ca) == "lt" and atom_args(ca)[0] == num(0) and fv == ("variant", "None") and tv == ("ctor", "Some", (("P", atom_args(ca)[1]),)):
-                    xa = single_atom(atom_args(ca)[1])
-                    if xa and atom_fn(xa) == "cast_i8":
-                        rd = single_atom(atom_args(xa)[0])
-                        if rd and atom_fn(rd) == "round":
-                            body = atom_args(rd)[0]
-                            ln = [a for a in body.atoms() if atom_fn(a) == "ln_1p"] if isinstance(body, Poly) else []
-                            if len(ln) == 1 and body in (C * Poly.atom(ln[0]), num(8) * Poly.atom(ln[0])):
-                                ex = single_atom(atom_args(ln[0])[0])
-                                if ex and atom_fn(ex) == "exp":
-                                    arg = ex[2]
-                                    okt = (isinstance(arg, tuple) and arg[0] == "R" and Rat(arg[1], arg[2]) == Rat(-var("t"), C)) or \
-                                        (isinstance(arg, tuple) and arg[0] == "P" and arg[1] == num(Fraction(-1, 8)) * var("t"))
-            rng = [n for n in walk(nb.value) if n.get("k") == "call" and (callee(n) or "").endswith("RangeInclusive::<Idx>::new")]
-            okt = okt and len(rng) == 1 and lit_value(rng[0]["args"][0]) == 0 and lit_value(rng[0]["args"][1]) == 127 and \
-                any(n.get("k") == "mcall" and n["m"] == "map_while" for n in walk(nb.value))
+        # table = the values x_t = round(C*ln_1p(exp(-t/C))) as i8 for t = 0, 1, .. 127, kept while x_t > 0
+        # (map_while with an `if x > 0 { Some(x) } else { None }`, or map followed by take_while(|&x| x > 0))
+        tnew = Tracer(F, "NONE", mode="real")
+        try:
+            nv_ = tnew.eval(nb.value, {})
+        except Unsupported:
+            nv_ = None
+        tb = nv_[2].get("table") if isinstance(nv_, tuple) and nv_ and nv_[0] == "struct" else None
+        ta_ = single_atom(tb) if isinstance(tb, Poly) else None
+        while ta_ is not None and atom_fn(ta_) != "std::iter::Iterator::collect" and len(atom_args(ta_)) == 1 and isinstance(atom_args(ta_)[0], Poly):
+            ta_ = single_atom(atom_args(ta_)[0])         # into_boxed_slice / into
+        d_ = ta_[2][1] if ta_ is not None and atom_fn(ta_) == "std::iter::Iterator::collect" and isinstance(ta_[2], tuple) and ta_[2][0] == "iterdesc" else None
+        C = var(ARI + ty + "::QUANTIZER_C")
+        from ..symx import Rat
+
+        def table_value(xv):
+            """xv == cast_i8(round(C * ln_1p(exp(-t/C))))"""
+            xa = single_atom(xv) if isinstance(xv, Poly) else None
+            if not (xa and atom_fn(xa) == "cast_i8"):
+                return False
+            rd = single_atom(atom_args(xa)[0])
+            if not (rd and atom_fn(rd) == "round"):
+                return False
+            body = atom_args(rd)[0]
+            ln = [a_ for a_ in body.atoms() if atom_fn(a_) == "ln_1p"] if isinstance(body, Poly) else []
+            if not (len(ln) == 1 and body in (C * Poly.atom(ln[0]), num(8) * Poly.atom(ln[0]))):
+                return False
+            ex = single_atom(atom_args(ln[0])[0])
+            if not (ex and atom_fn(ex) == "exp"):
+                return False
+            arg = ex[2]
+            return (isinstance(arg, tuple) and arg[0] == "R" and Rat(arg[1], arg[2]) == Rat(-var("t"), C)) or \
+                (isinstance(arg, tuple) and arg[0] == "P" and arg[1] == num(Fraction(-1, 8)) * var("t"))
+        from ..idioms import as_closure
+        from ..symx import unkey
+
+        def is_range(d):
+            if isinstance(d, tuple) and len(d) == 4 and d[0] == "range" and unkey(d[1]) == num(0) and unkey(d[2]) == num(127) and d[3] is True:
+                return True
+            if isinstance(d, tuple) and d and d[0] == "elems":
+                v_ = d[1][1] if isinstance(d[1], tuple) and len(d[1]) == 2 and d[1][0] == "P" else d[1]
+                va_ = single_atom(v_) if isinstance(v_, Poly) else None
+                return va_ is not None and atom_fn(va_).endswith("RangeInclusive::<Idx>::new") and atom_args(va_) == (num(0), num(127))
+            return False
+        try:
+            if d_ is not None and d_[0] == "map_while" and is_range(d_[1]):
+                r = tnew.apply(as_closure(F, tnew, d_[2]), [var("t")])
+                ra = single_atom(r) if isinstance(r, Poly) else None
+                if ra and atom_fn(ra) == "ite":
+                    c_, tv, fv = atom_args(ra)
+                    ca = single_atom(c_)
+                    okt = ca is not None and atom_fn(ca) == "lt" and atom_args(ca)[0] == num(0) and fv == ("variant", "None") and \
+                        tv == ("ctor", "Some", (("P", atom_args(ca)[1]),)) and table_value(atom_args(ca)[1])
+                elif isinstance(r, tuple) and len(r) == 3 and r[0] == "opt":
+                    # (x > 0).then_some(x)
+                    okt = r[1] == app("bool_to_option", app("lt", num(0), r[2])) and table_value(r[2])
+            elif d_ is not None and d_[0] == "take_while" and d_[1][0] == "map" and is_range(d_[1][1]):
+                xv = tnew.apply(as_closure(F, tnew, d_[1][2]), [var("t")])
+                kv = tnew.apply(as_closure(F, tnew, d_[2]), [var("x")])
+                okt = table_value(xv) and kv == app("lt", num(0), var("x"))
+        except Unsupported:
+            okt = False
         ck.inst("K4", ty + ":table", okt, nb.span, "table = (0..=127).map_while(t -> x = round(C*ln_1p(exp(-t/C))) as i8; x > 0 ? Some(x) : None)")
     for ty in eight:
         dimpl = [i for i in F.impls if i.get("trait") == "std::default::Default" and i.get("self_ty") == ARI + ty]
